@@ -45,6 +45,10 @@ class Prop(BaseProp):
         T = vlib.types()
         out = []
         unary = sorted(UNARY)
+        # the driver functions on the dynamically sized classes (beyond the fixed-size dispatch), every run
+        for force in (('partial_hessian', 7, 3), ('partial_hessian', 3, 7), ('partial_hessian', 6, 6), ('gradient', 12, 0), ('hessian', 11, 0), ('jacobian', 10, 6),
+                      ('jacobian', 3, 6), ('partial_hessian', 5, 5)):
+            out.append(self.driver_case(rng, 'p%d' % len(out), force))
         k = 0
         while len(out) < n:
             tn = PY_TYPES[k % len(PY_TYPES)]
@@ -131,10 +135,10 @@ class Prop(BaseProp):
                 out.append(self.driver_case(rng, cid))
         return out
 
-    def driver_case(self, rng, cid):
+    def driver_case(self, rng, cid, force=None):
         def pt(k):
             return [float(rng.below(33) - 16) / 8 for _ in range(k)]
-        name = rng.choice(['first_derivative', 'second_derivative', 'third_derivative', 'second_partial_derivative', 'third_partial_derivative', 'gradient', 'gradient',
+        name = force[0] if force else rng.choice(['first_derivative', 'second_derivative', 'third_derivative', 'second_partial_derivative', 'third_partial_derivative', 'gradient', 'gradient',
                            'jacobian', 'hessian', 'hessian', 'partial_hessian', 'third_partial_derivative_vec'])
         c = {'id': cid, 'name': name, 'm': 1, 'fail': 0, 'ijk': None, 'y': []}
         if name in ('first_derivative', 'second_derivative', 'third_derivative'):
@@ -144,16 +148,22 @@ class Prop(BaseProp):
         elif name == 'third_partial_derivative':
             c['x'] = pt(3)
         elif name == 'partial_hessian':
-            c['x'], c['y'] = pt(1 + rng.below(5)), pt(1 + rng.below(5))
+            c['x'], c['y'] = pt(1 + rng.below(8)), pt(1 + rng.below(8))      # fixed-size classes up to 5 x 5, the dynamic class beyond
         elif name == 'third_partial_derivative_vec':
-            nn = 1 + rng.below(6)
+            nn = 1 + rng.below(8)
             c['x'] = pt(nn)
             c['ijk'] = (rng.below(nn), rng.below(nn), rng.below(nn))
         elif name == 'jacobian':
-            c['x'] = pt(1 + rng.below(10))
-            c['m'] = 1 + rng.below(4)
+            c['x'] = pt(1 + rng.below(10))         # the Python jacobian is documented for up to 10 variables (TypeError beyond)
+            c['m'] = 1 + rng.below(6)
         else:
             c['x'] = pt(1 + rng.below(12))         # gradient / hessian: fixed-size classes up to 10, the dynamic class beyond
+        if force:
+            c['x'] = pt(force[1])
+            if name == 'partial_hessian':
+                c['y'] = pt(force[2])
+            if name == 'jacobian':
+                c['m'] = force[2]
         py = {'id': cid, 'kind': 'driver', 'name': name, 'x': [f2b(v) for v in c['x']], 'y': [f2b(v) for v in c['y']], 'm': c['m']}
         if c['ijk']:
             py['ijk'] = list(c['ijk'])
@@ -321,7 +331,7 @@ class Prop(BaseProp):
         return ('the eight registered Python classes x {every named method, sin_cos, powi/powf/powd/log_base/mul_add, + - * / with a dual, float or int on the right, '
                 'float or int on the left (reflected operators), ** with int / float / dual, unary minus, constructors, from_re, the part getters, repr} on operands '
                 'with arbitrary parts, and the ten driver functions on closures written with the Python operators (gradient / hessian with 1..12 variables: fixed-size '
-                'classes up to 10, dynamic beyond; jacobian 1..10 x 1..4; partial_hessian up to 5 x 5).  Expected value: the corresponding Rust operation (for reflected '
+                'classes up to 10, dynamic beyond; jacobian 1..10 x 1..6 with derivative-free outputs; partial_hessian up to 8 x 8: fixed-size classes up to 5 x 5, dynamic beyond).  Expected value: the corresponding Rust operation (for reflected '
                 'operators the composition python_macro.rs names) run through the harness and rendered by Display; Python repr must equal that string (Rust float Display '
                 'is the shortest round-trip decimal, so equal strings are equal bits), getters must return the stored parts, drivers must return the Rust driver\'s '
                 'floats bit for bit on the same closure.  The expected chains are also evaluated on the translated model inside Coq, bit for bit.  Distinct by '
